@@ -100,6 +100,58 @@ async fn c11_leader_sync_panic_no_longer_leaves_key_registered() {
     assert!(matches!(second, Ok(Ok(_))), "regression: the second request for the same key did not complete: {second:?}");
 }
 
+/// C11 (FIXED in /repo by "fix: coalesce leader clones its result before giving up its key"): a leader whose result's Clone impl
+/// panics used to leave its key registered (waiters spun forever). The test asserts the repaired behaviour.
+static PANIC_ON_CLONE: AtomicBool = AtomicBool::new(false);
+
+#[derive(Debug)]
+struct Resp(u32);
+impl Clone for Resp {
+    fn clone(&self) -> Self {
+        if PANIC_ON_CLONE.load(Ordering::SeqCst) {
+            panic!("Clone of the response panics");
+        }
+        Resp(self.0)
+    }
+}
+
+#[tokio::test]
+async fn c11_leader_panic_in_result_clone_frees_the_key_fixed() {
+    let calls = Arc::new(AtomicUsize::new(0));
+    let c2 = Arc::clone(&calls);
+    let svc = tower::service_fn(move |_k: u32| {
+        let c = Arc::clone(&c2);
+        async move {
+            c.fetch_add(1, Ordering::SeqCst);
+            tokio::time::sleep(Duration::from_millis(50)).await;
+            Ok::<Resp, String>(Resp(7))
+        }
+    });
+    use tower_resilience_coalesce::CoalesceLayer;
+    let layer = CoalesceLayer::new(|k: &u32| *k);
+    let mut leader_svc = layer.layer(svc);
+    let mut waiter_svc = leader_svc.clone();
+    let mut later_svc = leader_svc.clone();
+
+    PANIC_ON_CLONE.store(true, Ordering::SeqCst);
+    // leader: panics inside poll when it clones the result for its waiters
+    let leader = tokio::spawn(async move { leader_svc.ready().await.unwrap().call(1).await.map(|r| r.0) });
+    tokio::time::sleep(Duration::from_millis(10)).await;
+    let waiter = tokio::spawn(async move { waiter_svc.ready().await.unwrap().call(1).await.map(|r| r.0) });
+
+    let l = leader.await;
+    assert!(l.is_err(), "the leader task is expected to panic in Clone");
+    PANIC_ON_CLONE.store(false, Ordering::SeqCst);
+
+    // property: the waiter fails promptly (leader-cancelled), it does not wait forever
+    let w = tokio::time::timeout(Duration::from_millis(500), waiter).await;
+    assert!(w.is_ok(), "waiter still waiting 500 ms after the leader panicked");
+    // and the key is usable again at once: a later request starts a fresh call and completes
+    let r = tokio::time::timeout(Duration::from_millis(500), async move { later_svc.ready().await.unwrap().call(1).await }).await;
+    assert!(r.is_ok(), "a request arriving after the leader's panic waits forever: the key was never un-registered");
+    assert_eq!(calls.load(Ordering::SeqCst), 2);
+}
+
 /// C20: retries and reconnect retries call an instance that has not been polled ready since its previous call.
 #[derive(Debug, Clone)]
 struct Refused;
